@@ -4,6 +4,10 @@ not_applicable).  Keeps the manifest valid by construction."""
 import json, pathlib
 V = pathlib.Path(__file__).resolve().parents[1]
 src = json.loads((V / 'tools' / 'manifest_src.json').read_text())
+for frag in sorted((V / 'tools' / 'manifest.d').glob('*.json')):
+    f = json.loads(frag.read_text())
+    src['claimed'].update(f.get('claimed', {}))
+    src['not_claimed'].update(f.get('not_claimed', {}))
 props = [json.loads(l) for l in (V / 'properties.jsonl').read_text().splitlines() if l.strip()]
 checks = []
 na = []
